@@ -94,7 +94,7 @@ def run(tier, seed):
     if cov["results"].get("ok", 0) < 200 or cov["kept_allowed"].get("anc:ledger", 0) < 50 \
             or cov["kept_allowed"].get("imm_archive:imm_in_range", 0) < 1000 \
             or len(cov["manifest_variants"]) < 11 or cov["results"].get("err", 0) < 100:
-        raise vlib.ToolError(f"vacuity: {cov}")
+        c.defer(f"vacuity: {cov}")
     c.sample(rs[0])
     c.sample([e for e in recs if e["ev"] == "Kept" and not _allowed(e)][:2])
     c.validate("db", "DbRestoreTrace", "DbRestoreTrace.cfg", t1, name="cases")
